@@ -29,6 +29,7 @@ import re
 from ..callgraph import CallGraph
 from ..core import AnalysisError, RuleContext, need, norm, short
 from ..model import walk_scope, walk_with_lambdas
+from ..cfg import Flow
 from ..typestate import NoReturn
 
 EXPLANATION = __doc__
@@ -55,6 +56,7 @@ def construction_functions(ctx):
 
 # ------------------------------------------------------------------------ C14.1
 def check_raise_discipline(ctx):
+    m = ctx.model
     root, fs = construction_functions(ctx)
     n = 0
     for f in fs:
@@ -66,7 +68,11 @@ def check_raise_discipline(ctx):
                 if x is None:
                     ctx.ok("C14.1", f.qualname, "bare re-raise")
                     continue
-                cname = x.func.id if isinstance(x, ast.Call) and isinstance(x.func, ast.Name) else (x.id if isinstance(x, ast.Name) else norm(x))
+                from ._exc import raised_class
+
+                cname = raised_class(m, f, x)
+                if cname is None:
+                    raise AnalysisError(f"C14.1: the class of what `{short(st, 60)}` raises in {f.qualname} could not be read")
                 if cname != "ValueError":
                     ctx.bad("C14.1", f, st, f"building an annotation can fail with `{cname}` here; every rejected dim specification must be a ValueError")
                 else:
@@ -218,6 +224,7 @@ def check_totality(ctx):
                         ctx.ok("C14.2", f.qualname, f"`{short(x, 40)}` dominated by the tuple/length test -> ValueError")
     ctx.counters["partial_operation_sites"] = n_ops
     ctx.floor("C14.2", "partial_operation_sites", 6)
+    ctx.sub(_check_token_stays_a_string, ctx)
     # (vi) nothing on the construction path parses / compiles / evaluates a piece of the specification: the base of a
     # symbolic axis is kept as text until a check evaluates it, so a malformed expression (`n+`, `2n`) cannot make
     # `Float[Array, spec]` fail with SyntaxError (or NameError) when the annotation is built
@@ -464,8 +471,12 @@ def check_legality_matrix(ctx):
             outs = set()
             for i, x in enumerate(block):
                 if isinstance(x, ast.Raise):
-                    ok = isinstance(x.exc, ast.Call) and norm(x.exc.func) == "ValueError"
-                    return {"raise:ValueError" if ok else "raise:other"}
+                    from ._exc import raised_class
+
+                    rc_ = raised_class(m, f, x.exc)
+                    if rc_ is None:
+                        raise AnalysisError(f"C14.4: the class of what `{short(x, 50)}` raises could not be read")
+                    return {"raise:ValueError" if rc_ == "ValueError" else "raise:other"}
                 if isinstance(x, ast.If):
                     v = eval_bool(x.test, atom)
                     res = set()
@@ -559,6 +570,7 @@ def check_legality_matrix(ctx):
                         changed_ = True
     need(token_names, "C14.4: the per-token loop over the dim string was not found")
     _name = lambda e: isinstance(e, ast.Name) and e.id in token_names  # noqa: E731
+    _RVE_CTX.update(m=m, f=f)
     txt_checks = [
         ("second multi-axis specifier", lambda s: isinstance(s, ast.If) and norm(s.test) == "index_variadic is not None" and _raises_value_error(s.body)),
         ("`...` combined with anything else", lambda s: isinstance(s, ast.If) and _is_cmp(s.test, _name, ast.NotEq, _const("...")) and _raises_value_error(s.body)),
@@ -639,8 +651,21 @@ def check_legality_matrix(ctx):
                 ctx.ok("C14.4", f.qualname, "`...` = variadic + anonymous, then the shared checks")
 
 
+_RVE_CTX: dict = {}
+
+
 def _raises_value_error(stmts) -> bool:
-    return any(isinstance(x, ast.Raise) and isinstance(x.exc, ast.Call) and norm(x.exc.func) == "ValueError" for x in stmts)
+    """a `raise ValueError(..)` -- directly or through an error factory of the package (`raise _shape_error(..)`)"""
+    from ._exc import raised_class
+
+    m_, f_ = _RVE_CTX.get("m"), _RVE_CTX.get("f")
+    for x in stmts:
+        if isinstance(x, ast.Raise) and x.exc is not None:
+            if isinstance(x.exc, ast.Call) and norm(x.exc.func) == "ValueError":
+                return True
+            if m_ is not None and raised_class(m_, f_, x.exc) == "ValueError":
+                return True
+    return False
 
 
 # ------------------------------------------------------------------------ C14.5
@@ -661,3 +686,96 @@ def check_whitespace(ctx):
             ctx.bad("C14.5", f, sp, f"the shape specification is split with `{norm(sp)}`: repeated whitespace produces empty axis tokens")
         else:
             ctx.ok("C14.5", f.qualname, "split() without arguments: repeated whitespace is insignificant")
+
+
+# ------------------------------------------------------------------------ C14.2 (vii)
+_STR_ARG_METHODS = {"rfind", "find", "index", "rindex", "count", "startswith", "endswith", "split", "rsplit", "replace", "partition", "rpartition", "join", "removeprefix", "removesuffix", "strip"}
+
+
+def _str_only_uses(fn_node, name):
+    """uses of `name` in fn_node that raise TypeError unless it is a string: an argument of a string method, len(), a subscript, `+` with a literal"""
+    out = []
+    for x in ast.walk(fn_node):
+        if isinstance(x, ast.Call) and isinstance(x.func, ast.Attribute) and x.func.attr in _STR_ARG_METHODS and any(isinstance(a, ast.Name) and a.id == name for a in x.args):
+            out.append(x)
+        elif isinstance(x, ast.Call) and isinstance(x.func, ast.Name) and x.func.id == "len" and x.args and isinstance(x.args[0], ast.Name) and x.args[0].id == name:
+            out.append(x)
+        elif isinstance(x, ast.Subscript) and isinstance(x.value, ast.Name) and x.value.id == name and isinstance(x.ctx, ast.Load):
+            out.append(x)
+        elif isinstance(x, ast.BinOp) and isinstance(x.op, ast.Add):
+            a, b = x.left, x.right
+            if (isinstance(a, ast.Name) and a.id == name and isinstance(b, (ast.Constant, ast.JoinedStr))) or (isinstance(b, ast.Name) and b.id == name and isinstance(a, (ast.Constant, ast.JoinedStr))):
+                out.append(x)
+        elif isinstance(x, ast.Call) and isinstance(x.func, ast.Attribute) and isinstance(x.func.value, ast.Name) and x.func.value.id == name and x.func.attr in _STR_ARG_METHODS | {"isidentifier", "lower", "upper", "isdigit"}:
+            out.append(x)
+    return out
+
+
+def _check_token_stays_a_string(ctx):
+    """While a token of the dim string is processed its variable is re-bound: to `int(token)` for a fixed axis, to the dim object at the
+    end.  From there on, a string operation on it (directly, or inside a helper it is handed to -- an error-message builder that
+    underlines the token in the specification) raises TypeError: an *illegal* fixed axis such as `*4` then fails with TypeError instead
+    of the ValueError the language promises."""
+    m = ctx.model
+    f = m.func("_array_types._make_array_cached")
+    g = NoReturn(m).cfg(f)
+    toks = set()
+    for lp_ in [x for x in ast.walk(f.node) if isinstance(x, ast.For)]:
+        it = lp_.iter
+        if isinstance(it, ast.Call) and norm(it.func) == "enumerate" and it.args:
+            it = it.args[0]
+        if isinstance(it, ast.Call) and isinstance(it.func, ast.Attribute) and it.func.attr == "split":
+            for x in ast.walk(lp_.target):
+                if isinstance(x, ast.Name):
+                    toks.add(x.id)
+    toks = {t for t in toks if any(isinstance(a, ast.Assign) and any(isinstance(tg, ast.Name) and tg.id == t for tg in a.targets) and isinstance(a.value, ast.Call)
+                                  and norm(a.value.func) == "int" for a in ast.walk(f.node))}
+    if not toks:
+        ctx.ok("C14.2", f.qualname, "no token variable is re-bound to its integer value")
+        return
+    NORMAL = ("n", "t", "f", "loop", "done", "ret", "brk", "cont", "caught")
+    n_checked = 0
+    for tok in sorted(toks):
+        def kind_of(v):
+            if isinstance(v, ast.Call) and norm(v.func) == "int":
+                return "int"
+            if isinstance(v, ast.Call) and isinstance(v.func, ast.Name) and v.func.id[:1] in "_ABCDEFGHIJKLMNOPQRSTUVWXYZ" and v.func.id not in ("str",):
+                return "obj"
+            return "str"
+
+        def transfer(node, st, kind, succ):
+            if node.kind == "for" and kind == "loop":
+                return ("str",)  # a fresh token
+            if node.kind == "stmt" and isinstance(node.ast, ast.Assign) and kind in NORMAL and any(isinstance(t, ast.Name) and t.id == tok for t in node.ast.targets):
+                return (kind_of(node.ast.value),)
+            return (st,)
+
+        fl = Flow(g, "str", transfer)
+        for node in g.live_nodes():
+            if node.ast is None or node.kind not in ("stmt", "raise", "return", "test"):
+                continue
+            states = set(fl.states_at(node))
+            if not (states - {"str"}):
+                continue
+            roots = [node.ast.test] if node.kind == "test" and hasattr(node.ast, "test") else [node.ast]
+            if node.kind == "stmt" and isinstance(node.ast, ast.Assign) and any(isinstance(t, ast.Name) and t.id == tok for t in node.ast.targets):
+                roots = [node.ast.value]
+            for root in roots:
+                n_checked += 1
+                for u in _str_only_uses(root, tok):
+                    ctx.bad("C14.2", f, u, f"`{short(u, 50)}` is a string operation on `{tok}` at a point where it may already hold {' / '.join(sorted(states - {'str'}))} "
+                            "(the token was re-bound to its integer value / to the dim object): TypeError instead of ValueError for an illegal axis", construct=f"string operation on re-bound token: {short(u, 50)}")
+                for c in [x for x in ast.walk(root) if isinstance(x, ast.Call)]:
+                    t = m.resolve_call(f, c)
+                    if t.kind != "func" or t.target.module.short.startswith("_typeguard"):
+                        continue
+                    ps = list(t.target.params)
+                    for i, a in enumerate(c.args):
+                        if isinstance(a, ast.Name) and a.id == tok and i < len(ps):
+                            uses = _str_only_uses(t.target.node, ps[i])
+                            if uses:
+                                ctx.bad("C14.2", f, c, f"`{short(c, 60)}` hands `{tok}` to {t.target.name}, which applies `{short(uses[0], 40)}` to it, at a point where it may already hold "
+                                        f"{' / '.join(sorted(states - {'str'}))}: an illegal fixed axis (`*4`, `_4`, `?4`) then fails with TypeError instead of ValueError",
+                                        construct=f"re-bound token handed to a string operation in {t.target.name}")
+    if not any(fd.rule == "C14.2" and "re-bound token" in (fd.construct or "") for fd in ctx.findings):
+        ctx.ok("C14.2", f.qualname, f"no string operation reaches a token variable after it was re-bound ({n_checked} statements examined)")
